@@ -22,7 +22,7 @@ CHECKS = {
             "Trusted: walker reaches the entry points of the property; fixed thresholds (10 s, 3 GiB). No claim beyond the neighbourhoods.",
             "§5 C01"),
     "C14": ("fault_enumeration",
-            "exhaustive enumeration of single structural faults (every reference occurrence re-pointed at every object / undefined / beyond-size number; every integer occurrence set to 11 boundary values; every string emptied / halved / doubled; every value position replaced by a reference to a self-referencing object, a reference cycle, the containing object or an externalised copy), all pairs of re-wirings inside 9 structural fragments and about 1400 special structures (xref /W product, offsets near 2^64, object-stream offset pairs, /Parent chains ending in errors or 200000 long, page trees that are DAGs, predictor geometries over data cut inside a row, fax images with boundary widths, content streams whose operators each look ahead, giant strings), each walked completely in a worker process under 4 configurations",
+            "exhaustive enumeration of single structural faults (every reference occurrence re-pointed at every object / undefined / beyond-size number; every integer occurrence set to 11 boundary values; every string emptied / halved / doubled / taken five times / zero-padded to 127 bytes (encrypted documents also opened with a wrong password); every value position replaced by a reference to a self-referencing object, a reference cycle, the containing object or an externalised copy), all pairs of re-wirings inside 9 structural fragments and about 1400 special structures (xref /W product, offsets near 2^64, object-stream offset pairs, /Parent chains ending in errors or 200000 long, page trees that are DAGs, predictor geometries over data cut inside a row, fax images with boundary widths, content streams whose operators each look ahead, giant strings), each walked completely in a worker process under 4 configurations",
             "The fault space over the base documents is enumerated completely (not sampled): cycles through every followed field, self-containing object streams, /Prev loops, nesting to 200000, boundary numbers in every numeric field incl. encryption, predictor, xref and function parameters. Workers make stack overflow, abort, allocation failure (3 GiB limit) and hangs (10 s) observable and attributable to one case.",
             "Trusted: the walker reaches the entry points named by the property; thresholds for 'out of proportion' are fixed (10 s / 3 GiB for ~10 KB files). Faults beyond two simultaneous re-wirings are not enumerated.",
             "§5 C14"),
